@@ -601,7 +601,7 @@ def _mods():
     add('cooler._reduce._greedy_prune_partition', 'cooler._reduce', C08.REF_PRUNE, 'pruning by selection (see C08)')
     add('cooler._reduce.coarsen_cooler', 'cooler._reduce', C08.REF_COARSEN_COOLER, 'coarsen driver (see C08)')
     add('cooler._reduce.zoomify_cooler', 'cooler._reduce', C09.REF_ZOOMIFY, 'zoomify (see C09)')
-    add('cooler._reduce.get_multiplier_sequence', 'cooler._reduce', C09.REF_MULT, 'multipliers (see C09)')
+    add('cooler._reduce.get_multiplier_sequence', 'cooler._reduce', C09.REF_MULT, 'multipliers (see C09)', alts=[C09.REF_MULT_FOR])
     add('cooler.fileops.is_multires_file', 'cooler.fileops', C09.REF_IS_MULTIRES, 'mcool recogniser (see C09)')
     add('cooler.fileops._is_cooler', 'cooler.fileops', C13.REF_IS_COOLER_INNER, 'cooler recogniser (see C13)')
     add('cooler.fileops.is_scool_file', 'cooler.fileops', C17.REF_IS_SCOOL, 'scool recogniser (see C17)')
